@@ -411,11 +411,17 @@ fn build_clone_for_enum(
         });
     }
     let wheres = wcb.build(|ty| quote!(#ty : #trait_));
+    // `match self {}` on a reference is not exhaustive for an enum without variants
+    let self_expr = if variants.is_empty() {
+        quote!(*self)
+    } else {
+        quote!(self)
+    };
     Ok(quote! {
         #[automatically_derived]
         impl #impl_g #trait_ for #this_ty #wheres {
             fn clone(&self) -> Self {
-                match self {
+                match #self_expr {
                     #(#arms_clone,)*
                 }
             }
@@ -548,11 +554,17 @@ fn build_debug_for_enum(
         arms.push(quote!(#pat => #expr));
     }
     let wheres = wcb.build(|ty| quote!(#ty : #trait_));
+    // `match self {}` on a reference is not exhaustive for an enum without variants
+    let self_expr = if variants.is_empty() {
+        quote!(*self)
+    } else {
+        quote!(self)
+    };
     Ok(quote! {
         #[automatically_derived]
         impl #impl_g #trait_ for #this_ty #wheres {
             fn fmt(&self, f: &mut ::core::fmt::Formatter) -> ::core::fmt::Result {
-                match self {
+                match #self_expr {
                     #(#arms,)*
                 }
             }
